@@ -5,6 +5,7 @@ package model
 
 import (
 	"bytes"
+	"encoding/base64"
 	"encoding/json"
 	"fmt"
 	"net/netip"
@@ -13,6 +14,7 @@ import (
 	"strconv"
 	"strings"
 	"time"
+	"unicode/utf8"
 
 	"github.com/tdakkota/docker-logql/verifharness/gen"
 )
@@ -480,11 +482,60 @@ func ExpandTemplate(parts []gen.TmplPart, ts int64, line string, labels map[stri
 				return "", true
 			}
 			sb.WriteString(strings.TrimLeft(v, "+"))
+		case "ts_millis":
+			sb.WriteString(strconv.FormatInt(time.Unix(0, ts).UnixMilli(), 10))
+		case "alignLeft", "alignRight":
+			sb.WriteString(alignText(t.Kind == "alignLeft", t.N, labels[t.A]))
+		case "replace":
+			sb.WriteString(strings.ReplaceAll(labels[t.A], t.Text, t.Text2))
+		case "trimPrefix":
+			sb.WriteString(strings.TrimPrefix(labels[t.A], t.Text))
+		case "trimSuffix":
+			sb.WriteString(strings.TrimSuffix(labels[t.A], t.Text))
+		case "b64enc":
+			sb.WriteString(base64.StdEncoding.EncodeToString([]byte(labels[t.A])))
+		case "if_contains":
+			if strings.Contains(labels[t.A], t.Text) {
+				sb.WriteString("Y")
+			} else {
+				sb.WriteString("N")
+			}
+		case "regex_wrap":
+			sb.WriteString(regexWrapRe.ReplaceAllString(labels[t.A], "<$1>"))
 		case "fail_unixToTime", "fail_regex":
 			return "", true
 		}
 	}
 	return sb.String(), false
+}
+
+var regexWrapRe = regexp.MustCompile("([a-z0-9])")
+
+// alignText is Loki's alignLeft / alignRight: the first (last) n characters of s when it is
+// longer, s padded with blanks on the right (left) to n characters when it is shorter; a
+// negative n leaves s alone. A byte that is not part of a valid UTF-8 sequence counts as one
+// character.
+func alignText(left bool, n int, s string) string {
+	if n < 0 {
+		return s
+	}
+	var chars []string
+	for i := 0; i < len(s); {
+		_, size := utf8.DecodeRuneInString(s[i:])
+		chars = append(chars, s[i:i+size])
+		i += size
+	}
+	if len(chars) > n {
+		if left {
+			return strings.Join(chars[:n], "")
+		}
+		return strings.Join(chars[len(chars)-n:], "")
+	}
+	pad := strings.Repeat(" ", n-len(chars))
+	if left {
+		return s + pad
+	}
+	return pad + s
 }
 
 // jsonPath evaluates a path of the JSON expression mini-language on v.
